@@ -218,7 +218,7 @@ func init() {
 			add := r.Need(c.Fn(c.W, "errorCollector.add"), "errorCollector.add")
 			if add != nil {
 				apps := 0
-				for _, call := range callsIn(add.Decl.Body) {
+				for _, call := range add.callsDeep(add.Decl.Body) {
 					if add.isBuiltin(call, "append") == nil {
 						continue
 					}
